@@ -126,6 +126,10 @@ func returnBlocks(fn *ssa.Function) []*ssa.BasicBlock {
 		if len(b.Instrs) == 0 {
 			continue
 		}
+		// the recover block of a function with defers is entered only after a recovered panic
+		if b == fn.Recover && len(b.Preds) == 0 {
+			continue
+		}
 		if _, ok := b.Instrs[len(b.Instrs)-1].(*ssa.Return); ok {
 			out = append(out, b)
 		}
